@@ -33,7 +33,7 @@ class Pos:
 
 
 def classes(E, with_nan=True):
-    out = [Pos('below')] + [Pos('in', k) for k in range(1, E)] + [Pos('at_last'), Pos('above')]
+    out = [Pos('below'), Pos('at_first')] + [Pos('in', k) for k in range(1, E)] + [Pos('at_last'), Pos('above')]
     if with_nan:
         out.append(Pos('nan'))
     return out
@@ -42,6 +42,8 @@ def classes(E, with_nan=True):
 def digitize(p, E):
     if p.kind == 'below':
         return 0
+    if p.kind == 'at_first':
+        return 1      # x == first edge belongs to the first bin [edge_1, edge_2)
     if p.kind == 'in':
         return p.k
     return E      # at_last, above and nan all map to len(edges) for increasing edges
@@ -114,6 +116,10 @@ class ElemEval:
                 return isinstance(v, Pos) and v.kind == 'nan'
             if name in ('numpy.power',) and len(t[2]) == 2:
                 return ('pow', self.ev(t[2][0]), self.ev(t[2][1]))
+            if len(t[2]) == 1:
+                v = self.ev(t[2][0])
+                if isinstance(v, str) or (isinstance(v, tuple) and v and v[0] in ('pow', 'f')):
+                    return ('f', name, v)       # some function of the accumulated amplitude
             raise Undecided('call %s' % name)
         if k == 'meth':
             if t[1] in IDENTITY_METH:
@@ -207,16 +213,10 @@ class ElemEval:
             # relative order of x and the first edge: below -> x < e0 ; in(1) may be == e0 or > e0
             if p.kind == 'below':
                 rel = -1
-            elif p.kind == 'in' and p.k == 1:
-                rel = None          # x >= e0: could be equal
+            elif p.kind == 'at_first':
+                rel = 0
             else:
-                rel = 1
-            if rel is None:
-                if op in ('<',):
-                    return False
-                if op in ('>=',):
-                    return True
-                raise Undecided('x vs first edge with equality')
+                rel = 1             # in(k) denotes the interior or later edges: strictly above the first edge
         elif which == -1:
             if p.kind == 'above':
                 rel = 1
